@@ -41,9 +41,11 @@ func genC13(rng *rand.Rand, c *Case) {
 	case 2:
 		c.Cfg["fifo_senders"] = 1
 		c.Cfg["nopart2"] = 1
-		// (the scheduler's stalled-goroutine fault - cfg stalls=6,stall_len=300 - finds the seeded change C13-j in this
-		// mode; it is not drawn here because the mode has not yet been shown, on a large sample of the unchanged tree,
-		// to stay clear of the known finding's third mechanism with it: DESIGN 13, wave 12)
+		// a few times per run a goroutine is kept off the CPU for 300 steps while the rest goes on: check-then-act
+		// windows in the presence code (snapshot the recipients ... remove the user) are only a dozen steps wide.
+		// Shown to stay clear of the known finding in this mode on 6 400 runs of the unchanged tree (DESIGN 13, wave 12)
+		c.Cfg["stalls"] = 6
+		c.Cfg["stall_len"] = 300
 		// third mechanism of the known finding: the user-list reply is assembled from unlocked reads of the other
 		// connections' name/icon/flags and is not ordered with their change notices; it needs a preemption inside a
 		// handler, which only function-entry scheduling points provide - off in this mode
